@@ -1,5 +1,6 @@
 """Property id -> rules, and the texts that go to MANIFEST / evidence."""
-from .rules import optab, sign, role, memo, state, reord, handles, raw
+from .rules import (
+    optab, sign, role, memo, state, reord, handles, raw, domain)
 
 PROPS = dict()
 NOT_BUILT = dict()
@@ -49,6 +50,8 @@ prop('C02', [
     state.r_pair,
     state.r_writers,
     state.r_invmap,
+    domain.r_domain,
+    domain.r_rebuild,
 ],
     'normal form steps of find_or_add on every path (validation, '
     'complement normalisation, elimination, unique-table lookup, insert '
@@ -81,6 +84,7 @@ prop('C04', [
     sign.r_sign,
     role.r_role,
     memo.r_memo,
+    domain.r_domain,
 ],
     'sign accounting in _cofactor, _compose, _vector_compose, _copy_bdd '
     '(hit and miss paths); a true value selects the HIGH successor in '
@@ -185,6 +189,9 @@ prop('C11', [
     sign.r_sign,
     role.r_role,
     memo.r_memo,
+    domain.r_domain,
+    domain.r_rebuild,
+    handles.r_wrap_target,
 ],
     'sign and roles in dd.bdd._copy_bdd and dd._copy._copy_bdd; rebuild '
     'through ite on the target variable.',
@@ -195,6 +202,8 @@ prop('C12', [
     role.r_role,
     memo.r_memo,
     raw.r_temporaries,
+    domain.r_domain,
+    domain.r_rebuild,
 ],
     'sign and roles across pickle/JSON writers and readers.',
     'file-system behaviour, shelve.',
@@ -242,6 +251,8 @@ prop('C15', [
 prop('C16', [
     sign.r_sign,
     role.r_role,
+    domain.r_domain,
+    domain.r_rebuild,
 ],
     'sign of complemented else-edges; THEN/ELSE of the file format reach '
     'find_or_add as HIGH/LOW; only the THEN edge is required regular.',
